@@ -286,8 +286,11 @@ pub fn write_dir_ordered(pool: &[KeyInfo], d: &SDir, at: &Path, reversed: bool) 
                     let store = at.join(".itv-store");
                     std::fs::create_dir_all(&store).unwrap();
                     std::fs::write(store.join(name), text).unwrap();
+                    // (a scenario may list a file name twice - the later file replaces the earlier one, as writing does)
+                    let _ = std::fs::remove_file(at.join(name));
                     std::os::unix::fs::symlink(Path::new(".itv-store").join(name), at.join(name)).unwrap();
                 } else {
+                    let _ = std::fs::remove_file(at.join(name));
                     std::fs::write(at.join(name), text).unwrap();
                 }
             }
